@@ -215,9 +215,14 @@ func c14Scripted(fctx frugal.FContext) (string, error) {
 	return "", errors.New("scripted undeclared error")
 }
 
-func (c14Handler) Ping(fctx frugal.FContext, s string) (string, error) { return c14Scripted(fctx) }
-func (c14Handler) Nop(fctx frugal.FContext) error                      { _, err := c14Scripted(fctx); return err }
-func (c14Handler) Fire(fctx frugal.FContext, s string) error           { _, err := c14Scripted(fctx); return err }
+func (c14Handler) Ping(fctx frugal.FContext, s string) (string, error) {
+	if script, ok := fctx.RequestHeader("x-eph"); ok {
+		return c14EphHandler(fctx, script), nil
+	}
+	return c14Scripted(fctx)
+}
+func (c14Handler) Nop(fctx frugal.FContext) error            { _, err := c14Scripted(fctx); return err }
+func (c14Handler) Fire(fctx frugal.FContext, s string) error { _, err := c14Scripted(fctx); return err }
 
 type c14FPing struct{ *frugal.FBaseProcessorFunction }
 
